@@ -47,7 +47,7 @@ func init() {
 func c16Cases(tier string, seed int64) []string {
 	n := 16
 	if tier == "thorough" {
-		n = 300
+		n = 1600
 	}
 	var l []string
 	for i := 0; i < n; i++ {
